@@ -28,6 +28,10 @@ pub enum Ev {
 	Compact,
 	/// Chain::validate_tx of tree transaction i (the pool's gate; never changes chain state)
 	T(usize),
+	/// read-only uses of the state as of tree block i that may fail half-way (never change chain state): the miner's
+	/// set_txhashset_roots on a copy of block i (valid or not; it rewinds to the block's parent and applies it in a
+	/// read-only extension) and, when block i is on the best chain, Merkle proofs of every universe output as of its header
+	RO(usize),
 }
 
 impl Ev {
@@ -39,6 +43,7 @@ impl Ev {
 			Ev::Reopen => "reopen".into(),
 			Ev::Compact => "compact".into(),
 			Ev::T(i) => format!("T({})", t.txs[*i].0),
+			Ev::RO(i) => format!("RO({})", t.blocks[*i].name),
 		}
 	}
 }
@@ -157,6 +162,7 @@ impl Model {
 			}
 			Ev::Compact => Expect { ok: None, accepted: Some(BTreeSet::new()), why: "compact".into() },
 			Ev::T(_) => Expect { ok: None, accepted: Some(BTreeSet::new()), why: "validate_tx".into() },
+			Ev::RO(_) => Expect { ok: None, accepted: Some(BTreeSet::new()), why: "read-only queries".into() },
 		}
 	}
 }
@@ -260,6 +266,41 @@ impl<'a> Live<'a> {
 			}
 			Ev::Compact => self.chain().compact().map_err(|e| format!("{:?}", e)),
 			Ev::T(i) => self.chain().validate_tx(&self.tree.txs[*i].1).map_err(|e| format!("{:?}", e)),
+			Ev::RO(i) => {
+				let mut classes: Vec<String> = vec![];
+				let mut b = self.tree.blocks[*i].block.clone();
+				classes.push(match self.chain().set_txhashset_roots(&mut b) {
+					Ok(_) => "roots:ok".into(),
+					Err(e) => format!("roots:{}", err_class(&format!("{:?}", e))),
+				});
+				// Merkle proofs as of a header of the best chain (an API caller takes the header from the chain)
+				let on_best = {
+					let mut cur = self.model.head;
+					let mut found = false;
+					while let Some(k) = cur {
+						if k == *i {
+							found = true;
+							break;
+						}
+						cur = self.tree.blocks[k].parent;
+					}
+					found
+				};
+				if on_best {
+					let h = self.tree.blocks[*i].block.header.clone();
+					let (mut ok, mut err) = (0, 0);
+					for c in self.commits.clone() {
+						let id = grin_core::core::OutputIdentifier::new(grin_core::core::OutputFeatures::Plain, &c);
+						match self.chain().get_merkle_proof(id, &h) {
+							Ok(_) => ok += 1,
+							Err(_) => err += 1,
+						}
+					}
+					classes.push(format!("proofs:{}ok/{}err", ok.min(1), err.min(1)));
+				}
+				// a probe has no verdict of its own: what it did is the error text (an outcome class)
+				Err(classes.join(","))
+			}
 		};
 		let mut accepted = vec![];
 		for (h, s) in self.rec.log.lock().unwrap().iter() {
@@ -516,6 +557,10 @@ impl<'a> Explorer<'a> {
 				};
 				parent_ok && !model.accepted.contains(i)
 			}
+			Ev::RO(i) => match self.tree.blocks[*i].parent {
+				None => true,
+				Some(p) => model.accepted.contains(&p),
+			},
 			_ => true,
 		}
 	}
@@ -566,6 +611,7 @@ impl<'a> Explorer<'a> {
 					Ev::Reopen => "reopen",
 					Ev::Compact => "compact",
 					Ev::T(_) => "T",
+					Ev::RO(_) => "RO",
 				},
 				if out.ok {
 					if out.accepted.is_empty() { "ok".to_string() } else { out.accepted.iter().map(|(_, s)| s.split('@').next().unwrap().to_string()).collect::<Vec<_>>().join("+") }
@@ -678,6 +724,7 @@ impl<'a> Explorer<'a> {
 					Ev::Reopen => "reopen",
 					Ev::Compact => "compact",
 					Ev::T(_) => "T",
+					Ev::RO(_) => "RO",
 				},
 				if out.ok {
 					if out.accepted.is_empty() {
@@ -990,7 +1037,7 @@ pub fn replay_events(tree: &Tree, case: &Value, opts: Options, sc: &uni::Scratch
 		let s = e.as_str().unwrap_or("");
 		let mut found = None;
 		for (i, _) in tree.blocks.iter().enumerate() {
-			for cand in [Ev::B(i), Ev::H(i), Ev::HS(i)] {
+			for cand in [Ev::B(i), Ev::H(i), Ev::HS(i), Ev::RO(i)] {
 				if cand.show(tree) == s {
 					found = Some(cand);
 				}
